@@ -152,8 +152,12 @@ fileRename(FileName from, FileName to)
 {
 	String name1 = fnameUnparse(from);
 	String name2 = fnameUnparseStatic(to);
-	osFileRename(name1, name2);
+	int    rc    = osFileRename(name1, name2);
+
 	strFree(name1);
+
+	/* The callers move a finished output to its requested name. */
+	if (rc != 0) (void) (*fileError)(to, osIoWrMode);
 }
 
 void
